@@ -158,11 +158,11 @@ func init() {
 				}
 			}
 			// 2. the same rounds under the Go race detector
-			race := "/verif/build/vhrace"
+			race := filepath.Join(rootDir, "build/vhrace")
 			if _, err := os.Stat(race); err != nil {
 				c.Report(Finding{Class: "obligation", What: "race-detector binary missing (build with CGO_ENABLED=1 go build -race failed)", Case: Case{Kind: "conc"}})
 			} else {
-				logp := filepath.Join("/verif/build", "race")
+				logp := filepath.Join(rootDir, "build", "race")
 				os.RemoveAll(logp)
 				os.MkdirAll(logp, 0o755)
 				cmd := exec.Command(race, "conc-child", fmt.Sprint(c.Seed), fmt.Sprint(rounds))
